@@ -152,6 +152,11 @@ def main(argv):
     if drv is None:
         c.broken.append("extraction/driver build failed: " + dlog[-600:])
     hx = hx_bin("hx_shard")
+    BS = 8192                                   # kBlockSize as regenerated (the driver prints the model's constant)
+    if drv:
+        kout_ = run_lines(drv, ["K"])[1]
+        if kout_ and kout_[0].startswith("K "):
+            BS = int(kout_[0].split()[1])
     rng = c.rng
     work = os.path.join(codeclog.scratch_dir(), "c06-%d" % os.getpid())
     shutil.rmtree(work, ignore_errors=True)
@@ -396,6 +401,21 @@ def main(argv):
             ends = sum(1 for x in calls if x.rc == (1 if x.fn == "deflate" else 4))
             if ends != n:
                 c.broken.append("codec log of shard -c %s n=%d: %d members finished" % (comp, n, ends))
+            # the hand-off: each shard's bytes reach its codec in pieces of at most kBlockSize, a full
+            # block first whenever there is one (the model's `blocks`), and nothing is lost on the way
+            per = {}
+            for x in calls:
+                per.setdefault(x.id, []).append(x)
+            totals = sorted(sum(y.used() for y in v) for v in per.values())
+            if totals != sorted(len(o) for o in outs):
+                c.broken.append("codec log of shard -c %s n=%d: bytes consumed per stream %r != shard sizes %r" % (comp, n, totals[:6], sorted(len(o) for o in outs)[:6]))
+            for v in per.values():
+                runs_ = [y for y in v if y.flag == 0]
+                tot = sum(y.used() for y in v)
+                if any(y.ain > BS for y in runs_) or (tot >= BS and not any(y.ain == BS for y in runs_)) or (0 < tot < BS and runs_ and runs_[0].ain != tot):
+                    c.violation("writer-hand-off-not-in-blocks: a shard of %d bytes reached the codec in pieces %r" % (tot, [y.ain for y in runs_][:8]), rep)
+                    break
+            c.cov["distribution"]["codec-log/block-hand-off-checked"] = c.cov["distribution"].get("codec-log/block-hand-off-checked", 0) + len(per)
             for x in calls:
                 if x.flag in (4, 2) and x.ain != 0:
                     c.violation("finish-with-undefined-input: %s(FINISH) called with avail_in=%d on a shard writer" % (x.fn, x.ain), rep)
